@@ -317,6 +317,21 @@ func histories(sameClient bool) func() {
 			} else {
 				accepted(n)
 			}
+			// writes that name no property change nothing
+			for _, bad := range []struct {
+				what string
+				name value.Value
+			}{{"an unknown name", value.String("nosuch")}, {"an unknown numeric id", value.Uint(9999)}, {"a name of the wrong type", value.Int(107)}} {
+				if err := pW.SetProperty(bad.name, value.Opaque("i", rawInt(n))); err == nil {
+					vrt.Failf("history-unknown-property-written", "setProperty with %s succeeded (%s)", bad.what, ctx())
+				}
+			}
+			if _, err := pW.Property(value.String("nosuch")); err == nil {
+				vrt.Failf("history-unknown-property-read", "property(\"nosuch\") succeeded (%s)", ctx())
+			}
+			if names, err := pW.Properties(); err != nil || fmt.Sprint(names) != "[level]" {
+				vrt.Failf("history-property-list-differs", "properties() returned %v, %v; the object declares [level] (%s)", names, err, ctx())
+			}
 			vrt.Quiesce()
 			if v, err := pA.GetLevel(); err != nil || v != current {
 				vrt.Failf("history-read-differs", "GetLevel returned %d, %v; the latest accepted write is %d (%s)", v, err, current, ctx())
